@@ -112,7 +112,7 @@ class GuardMonitor(P.Monitor):
 
 
 class CheckGuardBody(P.Monitor):
-    """state 0: before guard.collector(); 1: took the Some arm; 2: compared.  BAD: RETURN in state 1"""
+    """state 0: before guard.collector(); 1: took the Some arm; 2: compared; 3: compared and the collectors differ.  BAD: a normal RETURN in state 1 or 3 (a call on the way that can return normally - e.g. a helper that panics only sometimes - does not help)"""
     name = 'check_guard-body'
 
     def __init__(self, fn):
@@ -145,6 +145,29 @@ class CheckGuardBody(P.Monitor):
                     if new is not None and new not in holds:
                         holds.add(new)
                         changed = True
+        # locals that hold the result of Collector::ptr_eq (True = as returned, False = negated)
+        self.eq_pol = {}
+        for b in fn.blocks.values():
+            t = b.term
+            if t.kind == 'call' and P.callee_name(t).endswith('Collector::ptr_eq') and t.place is not None and not t.place.proj:
+                self.eq_pol[t.place.local] = True
+        changed = True
+        while changed:
+            changed = False
+            for b in fn.blocks.values():
+                for s in b.stmts:
+                    if s.kind != 'assign' or s.place.proj or s.place.local in self.eq_pol:
+                        continue
+                    rv = s.rvalue
+                    src = rv.ops[0].place if rv.ops and rv.ops[0].place is not None else None
+                    if src is None or src.proj or src.local not in self.eq_pol:
+                        continue
+                    if rv.kind == 'use':
+                        self.eq_pol[s.place.local] = self.eq_pol[src.local]
+                        changed = True
+                    elif rv.kind == 'unop' and (rv.op or '').lower() == 'not':
+                        self.eq_pol[s.place.local] = not self.eq_pol[src.local]
+                        changed = True
         self.discr = set()
         for b in fn.blocks.values():
             for s in b.stmts:
@@ -164,10 +187,20 @@ class CheckGuardBody(P.Monitor):
                 return max(st, 1)
         if t.kind == 'call' and P.callee_name(t).endswith('Collector::ptr_eq') and edge.kind == 'ret':
             return 2
+        # the outcome of the comparison: the "collectors differ" edge must never reach a normal return (state 3)
+        if t.kind == 'switch' and t.discr.place is not None and not t.discr.place.proj and t.discr.place.local in self.eq_pol and st in (2, 3):
+            pol = self.eq_pol[t.discr.place.local]
+            listed = [c for c, _ in t.cases]
+            if edge.kind == 'case':
+                val = edge.value
+            else:
+                val = 1 if 0 in listed else 0
+            differ = (val == 0) if pol else (val != 0)
+            return 3 if differ else st
         return st
 
     def at_exit(self, fn, exit_kind, st):
-        if exit_kind == 'RETURN' and st == 1:
+        if exit_kind == 'RETURN' and st in (1, 3):
             return P.BAD
         return st
 
